@@ -1377,3 +1377,112 @@ Section RollbackBlock.
     - intros oj out Ho. eapply RDO; eauto.
   Qed.
 End RollbackBlock.
+
+(* ---- rollback preserves the invariant -------------------------------------------------------------------- *)
+Lemma rollback_ops_eq : forall s ch0 bl, Inv s -> ix_chain s = ch0 ++ [bl] ->
+  rollback_ops (ix_store s) =
+  concat (rev (mapi (rb (ix_store s) bl) 0 (b_txs bl))) ++ [Del (hdr_key bl)].
+Proof.
+  intros s ch0 bl HI E. unfold rollback_ops. rewrite (inv_tip_entry s ch0 bl HI E). f_equal.
+  unfold smatched_txs. rewrite concat_map_rev_mapi. reflexivity.
+Qed.
+
+Lemma inv_rollback : forall s, Inv s -> op_ok s ORollback = true ->
+  Inv (mkIx (rollback (ix_store s)) (removelast (ix_chain s)) (ix_floor s)).
+Proof.
+  intros s HI HO. cbn [op_ok] in HO. apply andb_true_iff in HO. destruct HO as [HO1 HO2].
+  apply Nat.ltb_lt in HO1. apply N.ltb_lt in HO2.
+  destruct (exists_last (l := ix_chain s)) as [ch0 [bl E]]. { intro Z. rewrite Z in HO1. cbn in HO1. lia. }
+  rewrite E in *. rewrite removelast_last. rewrite app_length in *. cbn [length] in *.
+  pose proof (inv_chain _ HI) as CO. rewrite E in CO. apply chain_ok_snoc_inv in CO. destruct CO as [CO HB].
+  pose proof (chain_facts _ CO) as F0. pose proof (inv_aux _ HI) as AX. rewrite E in AX.
+  pose proof (block_ok_parts _ _ HB) as [Hn [_ POK]].
+  pose proof (cf_nd _ F0) as cND. pose proof (cf_id _ F0) as cid. pose proof (cf_tnd _ F0) as cTND.
+  pose proof (cf_pos _ F0) as cpos.
+  assert (cbn0 : forall c, In c (live ch0) -> lc_bn c < b_num bl).
+  { intros c H. rewrite Hn. apply (cf_bn _ F0). auto. }
+  assert (cTbn0 : forall r, In r (txs ch0) -> tr_bn (snd r) < b_num bl).
+  { intros r H. rewrite Hn. apply (cf_tbn _ F0). auto. }
+  pose proof (inv_live _ HI) as LIF. rewrite E, live_snoc, txs_snoc in LIF.
+  assert (Hfl : ix_floor s <= b_num bl) by lia.
+  assert (RDH : forall j t, nth_error (b_txs bl) j = Some t -> smatched (N.of_nat j) t = true ->
+      get (ix_store s) (KTxHash (t_id t)) = Some (VInputs (t_inputs t))).
+  { intros j t H1 H2. apply (ax_txhash _ _ _ AX ch0 bl [] j t); auto. }
+  assert (RDC : forall pre t post op c, b_txs bl = pre ++ t :: post ->
+      In op (tx_ins (N.of_nat (length pre)) t) ->
+      lookup_cell (PL (b_num bl) (live ch0) (txs ch0) pre) op = Some c ->
+      get (ix_store s) (KConsumed (b_num bl) op) = Some (VCell (lc_bn c) (lc_txi c) (lc_out c))).
+  { intros pre t post op c H1 H2 H3. apply (ax_consumed _ _ _ AX ch0 bl [] pre t post op c); auto. }
+  assert (CLS : forall o, In o (rollback_ops (ix_store s)) -> live_key (bop_key o) = false ->
+     (exists j t, nth_error (b_txs bl) j = Some t /\ o = Del (KTxHash (t_id t))) \/ o = Del (hdr_key bl)).
+  { intros o Ho Hl. rewrite (rollback_ops_eq s ch0 bl HI E) in Ho. apply in_app_or in Ho.
+    destruct Ho as [Ho|[<-|[]]]; auto. left.
+    eapply (in_rb_all (ix_store s) bl (live ch0) (txs ch0) (chain_tx_ids ch0)); eauto. }
+  constructor; cbn [ix_store ix_chain ix_floor].
+  - exact CO.
+  - apply wf_commit. apply (inv_wf _ HI).
+  - unfold rollback. rewrite (rollback_ops_eq s ch0 bl HI E), commit_app. apply live_inv_aux_ops.
+    + eapply (live_rollback_txs (ix_store s) bl (live ch0) (txs ch0) (chain_tx_ids ch0)) with (rest := []); eauto.
+      symmetry. apply app_nil_r.
+    + intros o [<-|[]]. reflexivity.
+  - assert (DELS : forall k v, get (rollback (ix_store s)) k = Some v -> live_key k = false ->
+        get (ix_store s) k = Some v /\ ~ In k (map bop_key (rollback_ops (ix_store s)))).
+    { intros k v G Hl. unfold rollback in G.
+      destruct (get_commit_cases (ix_store s) (rollback_ops (ix_store s)) k) as [[H1 E1]|[o [H1 [H2 E1]]]]; rewrite E1 in G.
+      - auto.
+      - exfalso. destruct (CLS o H1) as [[j [t [_ ->]]]| ->]; [rewrite H2; auto| |]; discriminate. }
+    assert (HDR : In (Del (hdr_key bl)) (rollback_ops (ix_store s))).
+    { rewrite (rollback_ops_eq s ch0 bl HI E). apply in_or_app. right. left. reflexivity. }
+    constructor.
+    + intros n id f v G. apply DELS in G; auto. destruct G as [G NI].
+      apply (ax_hdr_sound _ _ _ AX) in G. destruct G as [chp [B [rest [G1 [G2 G3]]]]].
+      apply snoc_decomp in G1. destruct G1 as [[-> [-> ->]]|[rest' [-> G1]]].
+      * exfalso. apply NI. apply in_map_iff. exists (Del (hdr_key bl)). split; auto.
+      * exists chp, B, rest'. auto.
+    + intros chp B rest EB HBf. unfold rollback. rewrite get_commit_other.
+      * apply (ax_hdr_complete _ _ _ AX chp B (rest ++ [bl])); auto. rewrite EB, <- app_assoc. reflexivity.
+      * intro HIn. apply in_map_iff in HIn. destruct HIn as [o [Ek Ho]].
+        destruct (CLS o Ho) as [[j [t [_ ->]]]| ->]; [rewrite Ek; reflexivity| |]; try discriminate.
+        cbn [bop_key] in Ek. inversion Ek. destruct (decomp_num ch0 chp B rest F0 EB). lia.
+    + intros chp B rest j t EB HBf Hj Hm. unfold rollback. rewrite get_commit_other.
+      * apply (ax_txhash _ _ _ AX chp B (rest ++ [bl]) j t); auto. rewrite EB, <- app_assoc. reflexivity.
+      * intro HIn. apply in_map_iff in HIn. destruct HIn as [o [Ek Ho]].
+        destruct (CLS o Ho) as [[j' [t' [Hj' ->]]]| ->]; [rewrite Ek; reflexivity| |]; try discriminate.
+        cbn [bop_key] in Ek. inversion Ek as [Eid]. destruct POK as [_ [_ FR]]. apply (FR t').
+        eapply nth_error_In; eauto. rewrite Eid. eapply in_chain_ids; eauto.
+    + intros chp B rest pre t post op c EB HBf Et Hop Hc. unfold rollback. rewrite get_commit_other.
+      * apply (ax_consumed _ _ _ AX chp B (rest ++ [bl]) pre t post op c); auto. rewrite EB, <- app_assoc. reflexivity.
+      * intro HIn. apply in_map_iff in HIn. destruct HIn as [o [Ek Ho]].
+        destruct (CLS o Ho) as [[j' [t' [Hj' ->]]]| ->]; [rewrite Ek; reflexivity| |]; discriminate.
+  - lia.
+Qed.
+
+(* ---- the driver --------------------------------------------------------------------------------------------- *)
+Lemma inv_empty : Inv ix_empty.
+Proof.
+  constructor; cbn [ix_empty ix_store ix_chain ix_floor].
+  - constructor.
+  - apply wf_nil.
+  - intros k v _. cbn. split. discriminate. tauto.
+  - constructor; cbn [get]; try discriminate; intros chp; intros; destruct chp; discriminate.
+  - cbn. lia.
+Qed.
+
+Lemma inv_step : forall keep interval s o s', Inv s -> op_ok s o = true ->
+  istep keep interval s o = Some s' -> Inv s'.
+Proof.
+  intros keep interval s o s' HI HO HS. destruct o as [b|]; cbn [istep op_ok] in *.
+  - destruct (append keep interval (ix_store s) b) as [st'|] eqn:E; [|discriminate].
+    inversion HS; subst s'. eapply inv_append; eauto.
+  - inversion HS; subst s'. apply inv_rollback; auto.
+Qed.
+
+Lemma inv_run : forall keep interval ops s s', Inv s -> ops_ok keep interval s ops = true ->
+  irun keep interval s ops = Some s' -> Inv s'.
+Proof.
+  induction ops as [|o ops IH]; intros s s' HI HO HR; cbn [ops_ok irun] in *.
+  - inversion HR; subst; auto.
+  - apply andb_true_iff in HO. destruct HO as [HO1 HO2].
+    destruct (istep keep interval s o) as [s1|] eqn:E; [|discriminate].
+    apply (IH s1 s'); auto. eapply inv_step; eauto.
+Qed.
